@@ -212,7 +212,11 @@ class MonitoredList(MonitoredContainer, list):
         super().append(item)
 
     def __setitem__(self, idx, value):
-        value = self._on_add(value)
+        if isinstance(idx, slice):
+            # a slice takes any iterable of items, copy it such that an iterator is not consumed before it is stored.
+            value = [self._on_add(item) for item in list(value)]
+        else:
+            value = self._on_add(value)
         super().__setitem__(idx, value)
 
     def insert(self, idx, item):
